@@ -134,41 +134,41 @@ Section Sim.
   Local Notation simP := (sim a n (sh_pair a (shift_node a)) (cur_ok n)).
   Local Notation simC := (sim a n (shift_cur a) (fun p => p <= n)).
 
-  Lemma HI2 : sub_of I2 s a b.            Proof. apply HE. Qed.
-  Lemma HI0 : I0 = inp_of_str (sub_slice s a b). Proof. apply HE. Qed.
-  Lemma Hrules : e_rules E2 = e_rules E0. Proof. apply HE. Qed.
-  Lemma Hskip : e_skip E2 = e_skip E0.    Proof. apply HE. Qed.
-  Lemma Hpred : e_pred E2 = e_pred E0.    Proof. apply HE. Qed.
-  Lemma Heoi : e_eoi E2 = e_eoi E0.       Proof. apply HE. Qed.
-  Lemma Hron : e_ron_fixed E2 = e_ron_fixed E0. Proof. apply HE. Qed.
-  Lemma Hrm : e_rep_min_after E2 = e_rep_min_after E0. Proof. apply HE. Qed.
+  Lemma agree_inp2 : sub_of I2 s a b.            Proof. apply HE. Qed.
+  Lemma agree_inp0 : I0 = inp_of_str (sub_slice s a b). Proof. apply HE. Qed.
+  Lemma agree_rules : e_rules E2 = e_rules E0. Proof. apply HE. Qed.
+  Lemma agree_skip : e_skip E2 = e_skip E0.    Proof. apply HE. Qed.
+  Lemma agree_pred : e_pred E2 = e_pred E0.    Proof. apply HE. Qed.
+  Lemma agree_eoi : e_eoi E2 = e_eoi E0.       Proof. apply HE. Qed.
+  Lemma agree_ron : e_ron_fixed E2 = e_ron_fixed E0. Proof. apply HE. Qed.
+  Lemma agree_rm : e_rep_min_after E2 = e_rep_min_after E0. Proof. apply HE. Qed.
 
   Lemma E0_end : i_end I0 = n.
-  Proof. rewrite HI0. apply I0_end. exact HV. Qed.
+  Proof. rewrite agree_inp0. apply I0_end. exact HV. Qed.
 
   (* ---- the byte level facts, restated on the two environments ---- *)
   Lemma ms_sub t c0 :
     i_match_string I2 t (c0 + a) = mmap (option_map (shift_cur a)) (i_match_string I0 t c0).
-  Proof. rewrite HI0. apply i_match_string_sub; [exact HV|exact HI2]. Qed.
+  Proof. rewrite agree_inp0. apply i_match_string_sub; [exact HV|exact agree_inp2]. Qed.
   Lemma mi_sub t c0 :
     i_match_insens I2 t (c0 + a) = mmap (option_map (shift_cur a)) (i_match_insens I0 t c0).
-  Proof. rewrite HI0. apply i_match_insens_sub; [exact HV|exact HI2]. Qed.
+  Proof. rewrite agree_inp0. apply i_match_insens_sub; [exact HV|exact agree_inp2]. Qed.
   Lemma sk_sub k c0 : i_skip I2 k (c0 + a) = mmap (option_map (shift_cur a)) (i_skip I0 k c0).
-  Proof. rewrite HI0. apply i_skip_sub; [exact HV|exact HI2]. Qed.
+  Proof. rewrite agree_inp0. apply i_skip_sub; [exact HV|exact agree_inp2]. Qed.
   Lemma mc_sub f c0 :
     i_match_char I2 f (c0 + a) = mmap (option_map (shift_char_hit a)) (i_match_char I0 f c0).
-  Proof. rewrite HI0. apply i_match_char_sub; [exact HV|exact HI2]. Qed.
+  Proof. rewrite agree_inp0. apply i_match_char_sub; [exact HV|exact agree_inp2]. Qed.
   Lemma soi_sub c0 : i_at_start I2 (c0 + a) = i_at_start I0 c0.
-  Proof. rewrite HI0. apply i_at_start_sub. exact HI2. Qed.
+  Proof. rewrite agree_inp0. apply i_at_start_sub. exact agree_inp2. Qed.
   Lemma eoi_sub c0 : i_at_end I2 (c0 + a) = i_at_end I0 c0.
-  Proof. rewrite HI0. apply i_at_end_sub; [exact HV|exact HI2]. Qed.
+  Proof. rewrite agree_inp0. apply i_at_end_sub; [exact HV|exact agree_inp2]. Qed.
   Lemma sp_sub x0 y0 : y0 <= n -> i_span I2 (x0 + a) (y0 + a) = mmap (shift_span a) (i_span I0 x0 y0).
-  Proof. rewrite HI0. apply i_span_sub; [exact HV|exact HI2]. Qed.
+  Proof. rewrite agree_inp0. apply i_span_sub; [exact HV|exact agree_inp2]. Qed.
   Lemma ss_sub sp0 : snd sp0 <= n -> span_str I2 (shift_span a sp0) = span_str I0 sp0.
-  Proof. rewrite HI0. apply span_str_sub; [exact HV|exact HI2]. Qed.
+  Proof. rewrite agree_inp0. apply span_str_sub; [exact HV|exact agree_inp2]. Qed.
   Lemma su_sub ss c0 :
     c0 <= n -> i_skip_until I2 true ss (c0 + a) = shift_until a (i_skip_until I0 true ss c0).
-  Proof. rewrite HI0. apply i_skip_until_sub; [exact HV|exact HI2]. Qed.
+  Proof. rewrite agree_inp0. apply i_skip_until_sub; [exact HV|exact agree_inp2]. Qed.
 
   Lemma ms_bound t c p : i_match_string I0 t c = MOk (Some p) -> p <= n.
   Proof. intros H. apply i_match_string_bound in H. rewrite E0_end in H. exact H. Qed.
@@ -252,7 +252,7 @@ Section Sim.
     (forall st1, state_ok n st1 -> sim a n sh okA (f2 (sst st1)) (f0 st1)) ->
     sim a n sh okA (ron E2 f2 (sst st)) (ron E0 f0 st).
   Proof.
-    intros Hst Hf. unfold ron. rewrite Hron. destruct (e_ron_fixed E0).
+    intros Hst Hf. unfold ron. rewrite agree_ron. destruct (e_ron_fixed E0).
     - destruct (Hf st Hst) as [Heq Hok]. rewrite Heq.
       destruct (f0 st) as [x st'|st'| |]; cbn [shift_res_with res_ok] in *.
       + split; [reflexivity|exact Hok].
@@ -418,7 +418,7 @@ Section Sim.
     c0 <= n -> state_ok n st ->
     simP (skip_p E2 P2 lf (c0 + a) (sst st)) (skip_p E0 P0 lf c0 st).
   Proof.
-    intros Hc Hst. unfold skip_p. rewrite Hskip. destruct (e_skip E0) as [|e].
+    intros Hc Hst. unfold skip_p. rewrite agree_skip. destruct (e_skip E0) as [|e].
     - done_ok.
     - apply (arep_p_sim lf false e c0 st []); assumption.
   Qed.
@@ -427,13 +427,13 @@ Section Sim.
     c0 <= n -> state_ok n st ->
     simC (skip_c E2 C2 lf (c0 + a) (sst st)) (skip_c E0 C0 lf c0 st).
   Proof.
-    intros Hc Hst. unfold skip_c. rewrite Hskip. destruct (e_skip E0) as [|e].
+    intros Hc Hst. unfold skip_c. rewrite agree_skip. destruct (e_skip E0) as [|e].
     - done_ok.
     - apply arep_c_sim; assumption.
   Qed.
 
   Lemma skip_default_sub : skip_default E2 = shift_node a (skip_default E0).
-  Proof. unfold skip_default. rewrite Hskip. destruct (e_skip E0); reflexivity. Qed.
+  Proof. unfold skip_default. rewrite agree_skip. destruct (e_skip E0); reflexivity. Qed.
 
   Lemma pre_skip_p_sim bb doit c0 st :
     c0 <= n -> state_ok n st ->
@@ -583,7 +583,7 @@ Section Sim.
             else Ok (c0 + a, NRep (bounded mx) (rev (map (shift_item a) acc))) (sst st))
            (if e_rep_min_after E0 && (i <? mn) then Fail st
             else Ok (c0, NRep (bounded mx) (rev acc)) st)).
-    { intros i c0 st acc Hc Hst. rewrite Hrm. destruct (e_rep_min_after E0 && (i <? mn)).
+    { intros i c0 st acc Hc Hst. rewrite agree_rm. destruct (e_rep_min_after E0 && (i <? mn)).
       - done_ok.
       - split; [|cbn [res_ok cur_ok fst]; split; assumption].
         unfold shift_res_with, sh_pair. cbn [fst snd]. rewrite shift_node_rep, map_rev. reflexivity. }
@@ -614,7 +614,7 @@ Section Sim.
     assert (Hend : forall i c0 st, c0 <= n -> state_ok n st ->
       simC (if e_rep_min_after E2 && (i <? mn) then Fail (sst st) else Ok (c0 + a) (sst st))
            (if e_rep_min_after E0 && (i <? mn) then Fail st else Ok c0 st)).
-    { intros i c0 st Hc Hst. rewrite Hrm. destruct (e_rep_min_after E0 && (i <? mn)); done_ok. }
+    { intros i c0 st Hc Hst. rewrite agree_rm. destruct (e_rep_min_after E0 && (i <? mn)); done_ok. }
     induction k as [|k IH]; intros i c0 st Hc Hst; cbn [rep_c].
     - destruct (below i mx); [done_np|]. apply Hend; assumption.
     - destruct (below i mx); [|apply Hend; assumption].
@@ -704,7 +704,7 @@ Section Sim.
     - (* TEoi *) rewrite eoi_sub. destruct (i_at_end I0 c0); done_ok.
     - (* TNewline *) apply newline_p_sim; assumption.
     - (* TCharBy *)
-      rewrite Hpred, mc_sub. apply lift_sim.
+      rewrite agree_pred, mc_sub. apply lift_sim.
       intros [[p c]|] Hm; cbn [option_map]; unfold shift_char_hit; cbn [fst snd];
         [apply mc_bound in Hm|]; done_ok.
     - (* TSkipUntil *)
@@ -825,7 +825,7 @@ Section Sim.
     - (* TEmpty *) done_ok.
     - (* TFail *) done_ok.
     - (* TRule *)
-      rewrite Hrules. cbv zeta. destruct (r_emis (e_rules E0 r)).
+      rewrite agree_rules. cbv zeta. destruct (r_emis (e_rules E0 r)).
       + (* span only *)
         change (ev (EEnter r (c0 + a)) (sst st)) with (sst (ev (EEnter r c0) st)).
         assert (Hst1 : state_ok n (ev (EEnter r c0) st)) by exact Hst.
@@ -851,4 +851,458 @@ Section Sim.
         * done_np.
         * done_np.
   Qed.
+
+  Ltac span_tail_c Hm := apply span_sim; [exact Hm|]; intros ? -> ?; done_ok.
+
+  Lemma step_c_sim inh e c0 st :
+    c0 <= n -> state_ok n st ->
+    simC (step_c E2 C2 lf inh e (c0 + a) (sst st)) (step_c E0 C0 lf inh e c0 st).
+  Proof.
+    intros Hc Hst.
+    destruct e as [t|t|lo hi| | | | |pp|ss|k|k es|es|e1|k mn mx e1|e1|e1|e1|e1| | | | | |x y|k e1|e1 e2| | |r arg];
+      cbn [step_c].
+    - (* TStr *)
+      rewrite ms_sub. apply leaf_check_sim; [exact Hst|]. intros p Hm. eapply ms_bound. exact Hm.
+    - (* TInsens *)
+      rewrite mi_sub. apply leaf_check_sim; [exact Hst|]. intros p Hm. eapply mi_bound. exact Hm.
+    - (* TRange *)
+      rewrite mc_sub. apply lift_sim. intros [[p c]|] Hm; cbn [option_map]; unfold shift_char_hit; cbn [fst snd];
+        [apply mc_bound in Hm|]; done_ok.
+    - (* TAny *)
+      rewrite mc_sub. apply lift_sim. intros [[p c]|] Hm; cbn [option_map]; unfold shift_char_hit; cbn [fst snd];
+        [apply mc_bound in Hm|]; done_ok.
+    - (* TSoi *) rewrite soi_sub. destruct (i_at_start I0 c0); done_ok.
+    - (* TEoi *) rewrite eoi_sub. destruct (i_at_end I0 c0); done_ok.
+    - (* TNewline *) apply newline_c_sim; assumption.
+    - (* TCharBy *)
+      rewrite agree_pred, mc_sub. apply lift_sim.
+      intros [[p c]|] Hm; cbn [option_map]; unfold shift_char_hit; cbn [fst snd];
+        [apply mc_bound in Hm|]; done_ok.
+    - (* TSkipUntil *)
+      rewrite Hcut2, Hcut0. rewrite su_sub by exact Hc. pose proof (su_bound ss c0) as Hb.
+      destruct (i_skip_until I0 true ss c0) as [f p']. unfold shift_until. cbn [fst snd] in *. done_ok.
+    - (* TSkipChars *)
+      rewrite sk_sub. apply leaf_check_sim; [exact Hst|]. intros p Hm. eapply sk_bound. exact Hm.
+    - (* TSeq *) apply seq_c_sim; assumption.
+    - (* TChoice *) apply choice_c_sim; assumption.
+    - (* TOpt *)
+      destruct (ron_sim (shift_cur a) (fun p => p <= n) (C2 inh e1 (c0 + a)) (C0 inh e1 c0) st Hst)
+        as [Heq Hok].
+      { intros st1 Hst1. apply HC; assumption. }
+      rewrite Heq.
+      destruct (ron E0 (C0 inh e1 c0) st) as [p st'|st'| |]; cbn [shift_res_with res_ok] in *.
+      + split; [reflexivity|exact Hok].
+      + done_ok.
+      + done_np.
+      + done_np.
+    - (* TRep *) apply rep_c_sim; assumption.
+    - (* TAtomicRep *) apply arep_c_sim; assumption.
+    - (* TPos *)
+      rewrite (sst_snapshot st (EPol true) (EPol true) eq_refl).
+      assert (Hst1 : state_ok n (with_stk (s_snapshot (stk st)) (ev (EPol true) st))) by exact Hst.
+      call_C inh e1 c0 (with_stk (s_snapshot (stk st)) (ev (EPol true) st)) Hc Hst1.
+      + destruct Hok as [Hp Hst']. stk_norm. rewrite s_restore_map. apply lift_sim. intros s1 Hs1.
+        assert (Hs1ok : state_ok n (ev EPolEnd (with_stk s1 st')))
+          by (eapply stack_all_restore; [exact Hst'|exact Hs1]).
+        done_ok.
+      + stk_norm. rewrite s_restore_map. apply lift_sim. intros s1 Hs1.
+        assert (Hs1ok : state_ok n (ev EPolEnd (with_stk s1 st')))
+          by (eapply stack_all_restore; [exact Hok|exact Hs1]).
+        done_ok.
+      + done_np.
+      + done_np.
+    - (* TNeg *)
+      rewrite (sst_snapshot st (EPol false) (EPol false) eq_refl).
+      assert (Hst1 : state_ok n (with_stk (s_snapshot (stk st)) (ev (EPol false) st))) by exact Hst.
+      call_C inh e1 c0 (with_stk (s_snapshot (stk st)) (ev (EPol false) st)) Hc Hst1.
+      + destruct Hok as [Hp Hst']. stk_norm. rewrite s_restore_map. apply lift_sim. intros s1 Hs1.
+        assert (Hs1ok : state_ok n (ev EPolEnd (with_stk s1 st')))
+          by (eapply stack_all_restore; [exact Hst'|exact Hs1]).
+        done_ok.
+      + stk_norm. rewrite s_restore_map. apply lift_sim. intros s1 Hs1.
+        assert (Hs1ok : state_ok n (ev EPolEnd (with_stk s1 st')))
+          by (eapply stack_all_restore; [exact Hok|exact Hs1]).
+        done_ok.
+      + done_np.
+      + done_np.
+    - (* TPush *)
+      call_C inh e1 c0 st Hc Hst.
+      + destruct Hok as [Hp Hst']. apply span_sim; [exact Hp|]. intros sp -> Hle.
+        split; [reflexivity|]. cbn [res_ok]. split; [exact Hp|].
+        unfold state_ok. cbn [with_stk stk].
+        apply stack_all_push; [split; cbn [fst snd]; assumption|exact Hst'].
+      + split; [reflexivity|exact Hok].
+      + done_np.
+      + done_np.
+    - (* TPeek *)
+      stk_norm. rewrite s_peek_map.
+      destruct (s_peek (stk st)) as [sp|] eqn:Hpk; cbn [option_map]; [|done_ok].
+      pose proof (stack_all_peek _ _ _ Hst Hpk) as [Hsp1 Hsp2].
+      rewrite ss_sub by exact Hsp2. apply lift_sim_same. intros txt _.
+      rewrite ms_sub. apply leaf_check_sim; [exact Hst|]. intros p Hm. eapply ms_bound. exact Hm.
+    - (* TPop *)
+      stk_norm. rewrite s_pop_map.
+      pose proof (stack_all_pop _ _ Hst) as [Hst1 Hx].
+      destruct (s_pop (stk st)) as [[sp|] s1]; cbn [fst snd option_map] in *; [|done_ok].
+      destruct (Hx sp eq_refl) as [Hsp1 Hsp2]. cbv zeta.
+      rewrite ss_sub by exact Hsp2. apply lift_sim_same. intros txt _.
+      change (with_stk (map_stack (shift_span a) s1) (sst st)) with (sst (with_stk s1 st)).
+      rewrite ms_sub. apply leaf_check_sim; [exact Hst1|]. intros p Hm. eapply ms_bound. exact Hm.
+    - (* TDrop *)
+      stk_norm. rewrite s_pop_map.
+      pose proof (stack_all_pop _ _ Hst) as [Hst1 Hx].
+      destruct (s_pop (stk st)) as [[sp|] s1]; cbn [fst snd option_map] in *; [|done_ok].
+      assert (Hst1' : state_ok n (with_stk s1 st)) by exact Hst1. done_ok.
+    - (* TPeekAll *)
+      stk_norm. rewrite s_len_map, s_index_map. apply lift_sim. intros bf Hbf.
+      pose proof (stack_all_index _ _ _ _ _ Hst Hbf) as Hall.
+      rewrite <- map_rev. rewrite peek_spans_sub by (apply Forall_rev; exact Hall).
+      apply lift_sim. intros [p|] Hm; cbn [option_map]; [|done_ok].
+      apply (peek_spans_bound _ _ _ Hc) in Hm. change (shift_cur a p) with (p + a). span_tail_c Hm.
+    - (* TPopAll *)
+      stk_norm. rewrite s_len_map, s_index_map. apply lift_sim. intros bf Hbf.
+      pose proof (stack_all_index _ _ _ _ _ Hst Hbf) as Hall.
+      rewrite <- map_rev. rewrite peek_spans_sub by (apply Forall_rev; exact Hall).
+      apply lift_sim. intros [p|] Hm; cbn [option_map]; [|done_ok].
+      apply (peek_spans_bound _ _ _ Hc) in Hm. change (shift_cur a p) with (p + a).
+      apply span_sim; [exact Hm|]. intros sp -> Hle.
+      rewrite s_pop_all_map.
+      assert (Hst1 : state_ok n (with_stk (s_pop_all (stk st)) st)) by (apply stack_all_pop_all; exact Hst).
+      done_ok.
+    - (* TPeekSlice *)
+      change (stk (sst st)) with (shift_stack a (stk st)). rewrite stack_slice_sub.
+      destruct (stack_slice (stk st) x y) as [m|] eqn:Hsl; cbn [option_map]; [|done_ok].
+      apply lift_sim. intros sps Hm. subst m.
+      pose proof (stack_slice_ok _ _ _ _ Hst Hsl) as Hall.
+      rewrite peek_spans_sub by exact Hall.
+      apply lift_sim. intros [p|] Hm; cbn [option_map]; [|done_ok].
+      apply (peek_spans_bound _ _ _ Hc) in Hm. change (shift_cur a p) with (p + a). span_tail_c Hm.
+    - (* TArr *) apply arr_c_sim; assumption.
+    - (* TPair *)
+      call_C inh e1 c0 st Hc Hst.
+      + destruct Hok as [Hp Hst']. apply HC; assumption.
+      + split; [reflexivity|exact Hok].
+      + done_np.
+      + done_np.
+    - (* TEmpty *) done_ok.
+    - (* TFail *) done_ok.
+    - (* TRule *)
+      rewrite agree_rules. cbv zeta.
+      assert (Hboth :
+        simC match C2 (resolve arg inh) (r_body (e_rules E0 r)) (c0 + a) (ev (EEnter r (c0 + a)) (sst st)) with
+             | Ok pos' st' => Ok pos' (ev (EExit r (c0 + a) true) st')
+             | Fail st' => Fail (ev (EExit r (c0 + a) false) st')
+             | Panic => Panic
+             | Fuel => Fuel
+             end
+             match C0 (resolve arg inh) (r_body (e_rules E0 r)) c0 (ev (EEnter r c0) st) with
+             | Ok pos' st' => Ok pos' (ev (EExit r c0 true) st')
+             | Fail st' => Fail (ev (EExit r c0 false) st')
+             | Panic => Panic
+             | Fuel => Fuel
+             end).
+      { change (ev (EEnter r (c0 + a)) (sst st)) with (sst (ev (EEnter r c0) st)).
+        assert (Hst1 : state_ok n (ev (EEnter r c0) st)) by exact Hst.
+        call_C (resolve arg inh) (r_body (e_rules E0 r)) c0 (ev (EEnter r c0) st) Hc Hst1.
+        - destruct Hok as [Hp Hst'].
+          assert (Hst2 : state_ok n (ev (EExit r c0 true) st')) by exact Hst'. done_ok.
+        - assert (Hst2 : state_ok n (ev (EExit r c0 false) st')) by exact Hok. done_ok.
+        - done_np.
+        - done_np. }
+      destruct (r_emis (e_rules E0 r)).
+      + exact Hboth.
+      + apply HC; assumption.
+      + exact Hboth.
+  Qed.
 End Sim.
+
+(* ---------------------------------------------------------------- induction on fuel *)
+
+Theorem sim_lift s a b E2 E0 :
+  valid_range s a b -> env_agree s a b E2 E0 -> e_su_cut E2 = true -> e_su_cut E0 = true ->
+  forall fuel,
+    (forall inh e c0 st, c0 <= b - a -> state_ok (b - a) st ->
+       sim a (b - a) (sh_pair a (shift_node a)) (cur_ok (b - a))
+           (tparse E2 fuel inh e (c0 + a) (shift_state a st)) (tparse E0 fuel inh e c0 st)) /\
+    (forall inh e c0 st, c0 <= b - a -> state_ok (b - a) st ->
+       sim a (b - a) (shift_cur a) (fun p => p <= b - a)
+           (tcheck E2 fuel inh e (c0 + a) (shift_state a st)) (tcheck E0 fuel inh e c0 st)).
+Proof.
+  intros HV HE H2 H0. induction fuel as [|k [IHP IHC]].
+  - split; intros inh e c0 st Hc Hst; cbn [tparse tcheck]; (split; [reflexivity|exact I]).
+  - split; intros inh e c0 st Hc Hst; cbn [tparse tcheck].
+    + eapply step_p_sim; eassumption.
+    + eapply step_c_sim; eassumption.
+Qed.
+
+(* the statement in the words of the property: equal up to the shift, and the run on the fresh text
+   stays inside it (cursor <= length, stack spans inside) *)
+Theorem subinput_parse s a b E2 E0 fuel inh e c0 st :
+  valid_range s a b -> env_agree s a b E2 E0 -> e_su_cut E2 = true -> e_su_cut E0 = true ->
+  c0 <= b - a -> state_ok (b - a) st ->
+  tparse E2 fuel inh e (c0 + a) (shift_state a st) = shift_pres a (tparse E0 fuel inh e c0 st)
+  /\ res_ok (cur_ok (b - a)) (b - a) (tparse E0 fuel inh e c0 st).
+Proof.
+  intros HV HE H2 H0 Hc Hst. destruct (sim_lift s a b E2 E0 HV HE H2 H0 fuel) as [HP _].
+  exact (HP inh e c0 st Hc Hst).
+Qed.
+
+Theorem subinput_check s a b E2 E0 fuel inh e c0 st :
+  valid_range s a b -> env_agree s a b E2 E0 -> e_su_cut E2 = true -> e_su_cut E0 = true ->
+  c0 <= b - a -> state_ok (b - a) st ->
+  tcheck E2 fuel inh e (c0 + a) (shift_state a st) = shift_cres a (tcheck E0 fuel inh e c0 st)
+  /\ res_ok (fun p => p <= b - a) (b - a) (tcheck E0 fuel inh e c0 st).
+Proof.
+  intros HV HE H2 H0 Hc Hst. destruct (sim_lift s a b E2 E0 HV HE H2 H0 fuel) as [_ HC].
+  exact (HC inh e c0 st Hc Hst).
+Qed.
+
+(* ---------------------------------------------------------------- entry points *)
+
+Section Entry.
+  Variable s : list byte.
+  Variables a b : nat.
+  Hypothesis HV : valid_range s a b.
+  Variables E2 E0 : env.
+  Hypothesis HE : env_agree s a b E2 E0.
+  Hypothesis Hcut2 : e_su_cut E2 = true.
+  Hypothesis Hcut0 : e_su_cut E0 = true.
+
+  Lemma start2 : i_start (e_inp E2) = 0 + a.
+  Proof. destruct HE as ((_ & Hs & _) & _). exact Hs. Qed.
+
+  Lemma start0 : i_start (e_inp E0) = 0.
+  Proof. destruct HE as (_ & H0 & _). rewrite H0. reflexivity. Qed.
+
+  Lemma partial_parse_sub fuel r :
+    try_parse_partial E2 fuel r = shift_pres a (try_parse_partial E0 fuel r)
+    /\ res_ok (cur_ok (b - a)) (b - a) (try_parse_partial E0 fuel r).
+  Proof.
+    unfold try_parse_partial. rewrite start2, start0. rewrite <- (shift_state0 a) at 1.
+    apply subinput_parse with (s := s); try assumption; [lia|apply state_ok0].
+  Qed.
+
+  Lemma partial_check_sub fuel r :
+    try_check_partial E2 fuel r = shift_cres a (try_check_partial E0 fuel r)
+    /\ res_ok (fun p => p <= b - a) (b - a) (try_check_partial E0 fuel r).
+  Proof.
+    unfold try_check_partial. rewrite start2, start0. rewrite <- (shift_state0 a) at 1.
+    apply subinput_check with (s := s); try assumption; [lia|apply state_ok0].
+  Qed.
+
+  Lemma eoi_attempt_sub p st :
+    eoi_attempt E2 (p + a) (shift_state a st) = shift_ures a (eoi_attempt E0 p st).
+  Proof.
+    unfold eoi_attempt. rewrite (agree_eoi _ _ _ _ _ HE), (eoi_sub _ _ _ HV _ _ HE).
+    destruct (i_at_end (e_inp E0) p); reflexivity.
+  Qed.
+
+  Lemma no_ignore_sub r : no_ignore E2 r = no_ignore E0 r.
+  Proof. unfold no_ignore. rewrite (agree_eoi _ _ _ _ _ HE), (agree_rules _ _ _ _ _ HE). reflexivity. Qed.
+
+  Lemma top_skip_p_sub fuel p st :
+    p <= b - a -> state_ok (b - a) st ->
+    sim a (b - a) (sh_pair a (shift_node a)) (cur_ok (b - a))
+        (top_skip_p E2 fuel (p + a) (shift_state a st)) (top_skip_p E0 fuel p st).
+  Proof.
+    intros Hp Hst. unfold top_skip_p.
+    destruct (sim_lift s a b E2 E0 HV HE Hcut2 Hcut0 fuel) as [HP _].
+    eapply skip_p_sim; eassumption.
+  Qed.
+
+  Lemma top_skip_c_sub fuel p st :
+    p <= b - a -> state_ok (b - a) st ->
+    sim a (b - a) (shift_cur a) (fun p => p <= b - a)
+        (top_skip_c E2 fuel (p + a) (shift_state a st)) (top_skip_c E0 fuel p st).
+  Proof.
+    intros Hp Hst. unfold top_skip_c.
+    destruct (sim_lift s a b E2 E0 HV HE Hcut2 Hcut0 fuel) as [_ HC].
+    eapply skip_c_sim; eassumption.
+  Qed.
+
+  Lemma full_parse_sub fuel r : try_parse E2 fuel r = shift_tres a (try_parse E0 fuel r).
+  Proof.
+    unfold try_parse. destruct (partial_parse_sub fuel r) as [Heq Hok]. rewrite Heq.
+    destruct (try_parse_partial E0 fuel r) as [[p t] st|st| |];
+      cbn [shift_pres shift_res_with sh_pair res_ok cur_ok fst snd] in *; try reflexivity.
+    destruct Hok as [Hp Hst]. rewrite no_ignore_sub. destruct (no_ignore E0 r).
+    - rewrite eoi_attempt_sub. destruct (eoi_attempt E0 p st) as [u st'|st'| |]; reflexivity.
+    - destruct (top_skip_p_sub fuel p st Hp Hst) as [Heq2 Hok2]. rewrite Heq2.
+      destruct (top_skip_p E0 fuel p st) as [[p' t'] st'|st'| |];
+        cbn [shift_res_with sh_pair fst snd] in *; try reflexivity.
+      rewrite eoi_attempt_sub. destruct (eoi_attempt E0 p' st') as [u st''|st''| |]; reflexivity.
+  Qed.
+
+  Lemma full_check_sub fuel r : try_check E2 fuel r = shift_ures a (try_check E0 fuel r).
+  Proof.
+    unfold try_check. destruct (partial_check_sub fuel r) as [Heq Hok]. rewrite Heq.
+    destruct (try_check_partial E0 fuel r) as [p st|st| |];
+      cbn [shift_cres shift_res_with res_ok] in *; try reflexivity.
+    destruct Hok as [Hp Hst]. rewrite no_ignore_sub. destruct (no_ignore E0 r).
+    - apply eoi_attempt_sub.
+    - destruct (top_skip_c_sub fuel p st Hp Hst) as [Heq2 Hok2].
+      change (shift_cur a p) with (p + a). rewrite Heq2.
+      destruct (top_skip_c E0 fuel p st) as [p' st'|st'| |];
+        cbn [shift_res_with] in *; try reflexivity.
+      apply eoi_attempt_sub.
+  Qed.
+End Entry.
+
+Theorem subinput_entry_points s a b E2 E0 fuel r :
+  valid_range s a b -> env_agree s a b E2 E0 -> e_su_cut E2 = true -> e_su_cut E0 = true ->
+  try_parse_partial E2 fuel r = shift_pres a (try_parse_partial E0 fuel r) /\
+  try_check_partial E2 fuel r = shift_cres a (try_check_partial E0 fuel r) /\
+  try_parse E2 fuel r = shift_tres a (try_parse E0 fuel r) /\
+  try_check E2 fuel r = shift_ures a (try_check E0 fuel r).
+Proof.
+  intros HV HE H2 H0. repeat split.
+  - apply (partial_parse_sub s a b HV E2 E0 HE H2 H0).
+  - apply (partial_check_sub s a b HV E2 E0 HE H2 H0).
+  - apply (full_parse_sub s a b HV E2 E0 HE H2 H0).
+  - apply (full_check_sub s a b HV E2 E0 HE H2 H0).
+Qed.
+
+(* ---------------------------------------------------------------- corollaries in the property's words *)
+
+(* SOI holds only at a, EOI only at b (whatever the rest of the environment) *)
+Lemma soi_only_at_a E2 s a b k inh c st :
+  sub_of (e_inp E2) s a b ->
+  tparse E2 (S k) inh TSoi c st = (if c =? a then Ok (c, NSoi) st else Fail st) /\
+  tcheck E2 (S k) inh TSoi c st = (if c =? a then Ok c st else Fail st).
+Proof.
+  intros (_ & Hs & _). cbn [tparse tcheck step_p step_c]. unfold i_at_start. rewrite Hs. split; reflexivity.
+Qed.
+
+Lemma eoi_only_at_b E2 s a b k inh c st :
+  sub_of (e_inp E2) s a b ->
+  tparse E2 (S k) inh TEoi c st = (if c =? b then Ok (c, NEoi) st else Fail st) /\
+  tcheck E2 (S k) inh TEoi c st = (if c =? b then Ok c st else Fail st).
+Proof.
+  intros (_ & _ & He). cbn [tparse tcheck step_p step_c]. unfold i_at_end. rewrite He. split; reflexivity.
+Qed.
+
+Lemma soi_eoi s a b E2 k inh c st :
+  sub_of (e_inp E2) s a b ->
+  ((exists x st', tparse E2 (S k) inh TSoi c st = Ok x st') <-> c = a) /\
+  ((exists x st', tparse E2 (S k) inh TEoi c st = Ok x st') <-> c = b).
+Proof.
+  intros HI. destruct (soi_only_at_a E2 s a b k inh c st HI) as [Hs _].
+  destruct (eoi_only_at_b E2 s a b k inh c st HI) as [He _]. rewrite Hs, He. split.
+  - destruct (Nat.eqb_spec c a) as [Heq|Hne]; split.
+    + intros _. exact Heq.
+    + intros _. eexists _, _. reflexivity.
+    + intros (x & st' & H). discriminate H.
+    + intros H. contradiction.
+  - destruct (Nat.eqb_spec c b) as [Heq|Hne]; split.
+    + intros _. exact Heq.
+    + intros _. eexists _, _. reflexivity.
+    + intros (x & st' & H). discriminate H.
+    + intros H. contradiction.
+Qed.
+
+(* nothing outside [a, b) influences the outcome: two parents with the same text between a and b *)
+Theorem outside_irrelevant s1 s2 a b E1 E2 E0 fuel inh e c0 st :
+  valid_range s1 a b -> valid_range s2 a b ->
+  env_agree s1 a b E1 E0 -> env_agree s2 a b E2 E0 ->
+  e_su_cut E1 = true -> e_su_cut E2 = true -> e_su_cut E0 = true ->
+  c0 <= b - a -> state_ok (b - a) st ->
+  tparse E1 fuel inh e (c0 + a) (shift_state a st) = tparse E2 fuel inh e (c0 + a) (shift_state a st) /\
+  tcheck E1 fuel inh e (c0 + a) (shift_state a st) = tcheck E2 fuel inh e (c0 + a) (shift_state a st).
+Proof.
+  intros HV1 HV2 HE1 HE2 Hc1 Hc2 Hc0 Hc Hst. split.
+  - destruct (subinput_parse s1 a b E1 E0 fuel inh e c0 st HV1 HE1 Hc1 Hc0 Hc Hst) as [H1 _].
+    destruct (subinput_parse s2 a b E2 E0 fuel inh e c0 st HV2 HE2 Hc2 Hc0 Hc Hst) as [H2 _].
+    rewrite H1, H2. reflexivity.
+  - destruct (subinput_check s1 a b E1 E0 fuel inh e c0 st HV1 HE1 Hc1 Hc0 Hc Hst) as [H1 _].
+    destruct (subinput_check s2 a b E2 E0 fuel inh e c0 st HV2 HE2 Hc2 Hc0 Hc Hst) as [H2 _].
+    rewrite H1, H2. reflexivity.
+Qed.
+
+(* ---- the two concrete forms ---- *)
+
+Lemma is_boundary_length s : is_boundary s (length s) = true.
+Proof.
+  unfold is_boundary. assert (H : nth_error s (length s) = None) by (apply nth_error_None; lia).
+  rewrite H, Nat.eqb_refl. apply orb_true_r.
+Qed.
+
+Lemma valid_range_pos s a : a <= length s -> is_boundary s a = true -> valid_range s a (length s).
+Proof. intros Ha Hb. repeat split; [exact Ha|lia|exact Hb|apply is_boundary_length]. Qed.
+
+(* Span(s, a, b) against the fresh s[a..b] *)
+Theorem span_entry_points s a b E fuel r :
+  valid_range s a b -> e_inp E = inp_of_str (sub_slice s a b) -> e_su_cut E = true ->
+  let E2 := with_inp E (inp_of_span s a b) in
+  try_parse_partial E2 fuel r = shift_pres a (try_parse_partial E fuel r) /\
+  try_check_partial E2 fuel r = shift_cres a (try_check_partial E fuel r) /\
+  try_parse E2 fuel r = shift_tres a (try_parse E fuel r) /\
+  try_check E2 fuel r = shift_ures a (try_check E fuel r).
+Proof.
+  intros HV HI Hcut E2. apply (subinput_entry_points s a b); try assumption.
+  apply env_agree_with_inp; [apply sub_of_span|exact HI].
+Qed.
+
+(* Position(s, a) against the fresh s[a..] *)
+Theorem position_entry_points s a E fuel r :
+  a <= length s -> is_boundary s a = true -> e_inp E = inp_of_str (skipn a s) -> e_su_cut E = true ->
+  let E2 := with_inp E (inp_of_pos s a) in
+  try_parse_partial E2 fuel r = shift_pres a (try_parse_partial E fuel r) /\
+  try_check_partial E2 fuel r = shift_cres a (try_check_partial E fuel r) /\
+  try_parse E2 fuel r = shift_tres a (try_parse E fuel r) /\
+  try_check E2 fuel r = shift_ures a (try_check E fuel r).
+Proof.
+  intros Ha Hb HI Hcut E2. apply (subinput_entry_points s a (length s)); try assumption.
+  - apply valid_range_pos; assumption.
+  - apply env_agree_with_inp; [apply sub_of_pos|]. rewrite sub_slice_to_end. exact HI.
+Qed.
+
+(* ---------------------------------------------------------------- byte level, gathered *)
+
+Theorem matchers_related s a b I2 :
+  valid_range s a b -> sub_of I2 s a b ->
+  let I0 := inp_of_str (sub_slice s a b) in
+  length (sub_slice s a b) = b - a /\
+  (forall c0, i_get I2 (c0 + a) = i_get I0 c0) /\
+  (forall t c0, i_match_string I2 t (c0 + a) = mmap (option_map (shift_cur a)) (i_match_string I0 t c0)) /\
+  (forall t c0, i_match_insens I2 t (c0 + a) = mmap (option_map (shift_cur a)) (i_match_insens I0 t c0)) /\
+  (forall k c0, i_skip I2 k (c0 + a) = mmap (option_map (shift_cur a)) (i_skip I0 k c0)) /\
+  (forall f c0, i_match_char I2 f (c0 + a) = mmap (option_map (shift_char_hit a)) (i_match_char I0 f c0)) /\
+  (forall ss c0, c0 <= b - a ->
+     i_skip_until I2 true ss (c0 + a) = shift_until a (i_skip_until I0 true ss c0)) /\
+  (forall c0, i_at_start I2 (c0 + a) = i_at_start I0 c0) /\
+  (forall c0, i_at_end I2 (c0 + a) = i_at_end I0 c0) /\
+  (forall x0 y0, y0 <= b - a -> i_span I2 (x0 + a) (y0 + a) = mmap (shift_span a) (i_span I0 x0 y0)) /\
+  (forall sp0, snd sp0 <= b - a -> span_str I2 (shift_span a sp0) = span_str I0 sp0).
+Proof.
+  intros HV HI I0. repeat split; intros.
+  - apply sub_slice_length. exact HV.
+  - apply i_get_sub; assumption.
+  - apply i_match_string_sub; assumption.
+  - apply i_match_insens_sub; assumption.
+  - apply i_skip_sub; assumption.
+  - apply i_match_char_sub; assumption.
+  - apply i_skip_until_sub; assumption.
+  - apply i_at_start_sub; assumption.
+  - apply i_at_end_sub; assumption.
+  - apply i_span_sub; assumption.
+  - apply span_str_sub; assumption.
+Qed.
+
+(* every cursor an operation returns stays inside the input (any form) *)
+Theorem matchers_bounded I :
+  (forall t c p, i_match_string I t c = MOk (Some p) -> p <= i_end I) /\
+  (forall t c p, i_match_insens I t c = MOk (Some p) -> p <= i_end I) /\
+  (forall k c p, i_skip I k c = MOk (Some p) -> p <= i_end I) /\
+  (forall f c p ch, i_match_char I f c = MOk (Some (p, ch)) -> p <= i_end I) /\
+  (forall cut ss c, snd (i_skip_until I cut ss c) <= i_end I) /\
+  (forall x y sp, i_span I x y = MOk sp -> sp = (x, y) /\ x <= y).
+Proof.
+  repeat split.
+  - apply i_match_string_bound.
+  - apply i_match_insens_bound.
+  - apply i_skip_bound.
+  - apply i_match_char_bound.
+  - intros cut ss c. apply i_skip_until_bound.
+  - apply i_span_ok in H. apply H.
+  - apply i_span_ok in H. apply H.
+Qed.
